@@ -1,0 +1,34 @@
+//go:build verif
+
+package car
+
+// Exported wrapper around the internal CARv1 reader for the external verification harness
+// (build tag "verif" only). Add-only: no existing code is touched.
+
+import (
+	"io"
+
+	"github.com/ipld/go-car/v2/internal/carv1"
+)
+
+// VerifCarV1ReadAllThenAgain drives the internal CARv1 reader like VerifCarV1ReadAll and then calls
+// Next `extra` more times after the first error; for each of those calls it reports whether a block
+// came back and the error.
+func VerifCarV1ReadAllThenAgain(r io.Reader, zeroLenAsEOF bool, maxHeader, maxSection uint64, extra int) (openErr error, endErr error, againBlock []bool, againErr []error) {
+	cr, err := carv1.NewCarReaderWithoutDefaults(r, zeroLenAsEOF, maxHeader, maxSection)
+	if err != nil {
+		return err, nil, nil, nil
+	}
+	for {
+		if _, err := cr.Next(); err != nil {
+			endErr = err
+			break
+		}
+	}
+	for i := 0; i < extra; i++ {
+		b, err := cr.Next()
+		againBlock = append(againBlock, b != nil)
+		againErr = append(againErr, err)
+	}
+	return nil, endErr, againBlock, againErr
+}
